@@ -1092,7 +1092,7 @@ class RTCSctpTransport(AsyncIOEventEmitter):
 
             init_ack = InitAckChunk()
             init_ack.initiate_tag = self._local_verification_tag
-            init_ack.advertised_rwnd = self._advertised_rwnd
+            init_ack.advertised_rwnd = max(0, self._advertised_rwnd)
             init_ack.outbound_streams = self._outbound_streams_count
             init_ack.inbound_streams = self._inbound_streams_max
             init_ack.initial_tsn = self._local_tsn
